@@ -27,31 +27,105 @@ func validate(n node) error {
 	})
 }
 
-func isLeftRecursive(root *strct) (found bool) {
-	defer func() { _ = recover() }()
-	seen := map[node]bool{}
-	_ = visit(root.expr, func(n node, next func() error) error {
-		if found {
-			return nil
-		}
+// isLeftRecursive reports whether root can be entered again before any token
+// has been consumed, directly or through other productions.
+func isLeftRecursive(root *strct) bool {
+	seen := map[*strct]bool{}
+	// leftmost reports whether root is reachable from n without consuming input.
+	var leftmost func(n node) bool
+	leftmost = func(n node) bool {
 		switch n := n.(type) {
 		case *strct:
-			if root.typ == n.typ {
-				found = true
+			if n.typ == root.typ {
+				return true
 			}
-
+			if seen[n] {
+				return false
+			}
+			seen[n] = true
+			return leftmost(n.expr)
+		case *union:
+			for _, member := range n.disjunction.nodes {
+				if leftmost(member) {
+					return true
+				}
+			}
+		case *disjunction:
+			for _, child := range n.nodes {
+				if leftmost(child) {
+					return true
+				}
+			}
 		case *sequence:
-			if !n.head {
-				panic("done")
+			// Later elements are still leftmost while everything before them can match nothing.
+			for s := n; s != nil; s = s.next {
+				if leftmost(s.node) {
+					return true
+				}
+				if !canMatchEmpty(s.node, map[*strct]bool{}) {
+					break
+				}
+			}
+		case *group:
+			return leftmost(n.expr)
+		case *lookaheadGroup:
+			return leftmost(n.expr)
+		case *negation:
+			return leftmost(n.node)
+		case *capture:
+			return leftmost(n.node)
+		}
+		return false
+	}
+	return leftmost(root.expr)
+}
+
+// canMatchEmpty reports whether n can match without consuming a token.
+func canMatchEmpty(n node, visiting map[*strct]bool) bool {
+	switch n := n.(type) {
+	case *strct:
+		if visiting[n] {
+			return false
+		}
+		visiting[n] = true
+		defer delete(visiting, n)
+		return canMatchEmpty(n.expr, visiting)
+	case *union:
+		for _, member := range n.disjunction.nodes {
+			if canMatchEmpty(member, visiting) {
+				return true
 			}
 		}
-		if seen[n] {
-			return nil
+		return false
+	case *disjunction:
+		for _, child := range n.nodes {
+			if canMatchEmpty(child, visiting) {
+				return true
+			}
 		}
-		seen[n] = true
-		return next()
-	})
-	return
+		return false
+	case *sequence:
+		for s := n; s != nil; s = s.next {
+			if !canMatchEmpty(s.node, visiting) {
+				return false
+			}
+		}
+		return true
+	case *group:
+		switch n.mode {
+		case groupMatchZeroOrOne, groupMatchZeroOrMore:
+			return true
+		case groupMatchNonEmpty:
+			return false
+		}
+		return canMatchEmpty(n.expr, visiting)
+	case *lookaheadGroup:
+		return true
+	case *capture:
+		return canMatchEmpty(n.node, visiting)
+	}
+	// Literals, references, negations and user-implemented productions consume input.
+	return false
 }
 
 func indent(s string) string {
